@@ -267,9 +267,18 @@ class Executor(Evaluator):
         env = getattr(self.cur_contract, "extra", {}).get("env", {}) if self.cur_contract else {}
         return name if name in env and self.module is self.fi.module else None
 
+    def self_method(self, node):
+        f = node.func
+        if isinstance(f, ast.Attribute) and isinstance(f.value, ast.Name) and f.value.id == "self" and self.fi is not None and self.fi.cls:
+            q = f"{self.fi.relpath}::{self.fi.cls}.{f.attr}"
+            return self.repo.functions.get(q)
+        return None
+
     def is_user_call(self, node, st):
         f = node.func
         if not st.spec and self.env_name(node):
+            return True
+        if not st.spec and self.self_method(node) is not None:
             return True
         if isinstance(f, ast.Name) and f.id in self.OPAQUE_CALLS:
             return False
@@ -324,7 +333,7 @@ class Executor(Evaluator):
     def call(self, node, st):
         if id(node) in self._memo:
             return self._memo[id(node)]
-        if not st.spec and self.env_name(node):
+        if not st.spec and (self.env_name(node) or self.self_method(node) is not None):
             res = self.call_multi(node, st)
             if len(res) != 1:
                 raise Unsupported(f"environment call with several outcomes inside an expression (line {self.line})")
@@ -338,6 +347,8 @@ class Executor(Evaluator):
                 return r
         if isinstance(f, ast.Name):
             name = f.id
+            if name in ("sum", "max", "min") and len(args) == 1 and isinstance(args[0], ast.GeneratorExp) and not st.spec:
+                return self.reduce_genexp(name, args[0], st)
             if name in ("max", "min") and name not in st.env:
                 vals = [self.eval(a, st) for a in args]
                 if len(vals) == 1 and isinstance(vals[0], (Arr, AExpr)):
@@ -400,6 +411,41 @@ class Executor(Evaluator):
             if isinstance(base, dict):
                 raise Unsupported(f"method call {f.attr} on object")
         raise Unsupported(f"call form (line {self.line})")
+
+    def reduce_genexp(self, name, gen, st):
+        """sum/max/min(<expr> for x in <array rows>) as a specification term"""
+        if len(gen.generators) != 1 or gen.generators[0].ifs or not isinstance(gen.generators[0].target, ast.Name):
+            raise Unsupported("generator expression shape")
+        it = self.eval(gen.generators[0].iter, st)
+        if not isinstance(it, (Arr, AExpr)):
+            raise Unsupported("generator over " + type(it).__name__)
+        n = it.shape[0]
+        var = gen.generators[0].target.id
+
+        def term(k):
+            s = st.fork()
+            saved = self.check_bounds
+            self.check_bounds = False
+            try:
+                s.env[var] = self.index(s, it, [k])
+                return as_int(self.eval(gen.elt, s))
+            finally:
+                self.check_bounds = saved
+
+        saved = self.check_bounds
+        self.check_bounds = False
+        try:
+            if name == "sum":
+                if isinstance(n, int):
+                    acc = 0
+                    for k in range(n):
+                        acc = acc + term(k)
+                    return acc
+                return self.sum_function(0, term)(zint(n))
+            ae = AExpr([n], lambda ix: term(ix[0]), "i64")
+        finally:
+            self.check_bounds = saved
+        return self.reduce_minmax(st, ae, name)
 
     def lib_call(self, mod, attr, node, st):
         args = [self.eval(a, st) for a in node.args]
@@ -496,6 +542,14 @@ class Executor(Evaluator):
             args = [self.eval(a, st) for a in node.args]
             out = handler(self, st, node, args)
             return out if isinstance(out, list) else [(st, out)]
+        sm = self.self_method(node) if not st.spec else None
+        if sm is not None:
+            self.line = node.lineno
+            args = [st.env["self"]] + [self.eval(a, st) for a in node.args]
+            con = self.contracts.contracts.get(sm.qualname)
+            if con is not None:
+                return self.call_by_contract(con, sm, args, st, node)
+            return self.inline_call(sm, args, st)
         if not (isinstance(node.func, ast.Name) and self.is_user_call(node, st)):
             return [(st, self.eval(node, st))]
         kind, target = self.resolve_callee(node, st)
